@@ -735,6 +735,9 @@ func cacheRegionsUnits(thorough bool) []*explore.Unit {
 				cl.AddTable("t", sp, []string{"rs1:1"})
 				cl.AddTable("t1", []string{"b"}, []string{"rs2:1"})
 				cl.AddTable("s", nil, []string{"rs2:1"})
+				// '-' sorts between ',' and '.': the rows of this table lie inside the range
+				// [nosuch, nosuch.) that is scanned for the table "nosuch"
+				cl.AddTable("nosuch-1", nil, []string{"rs2:1"})
 				w = newWorld(cl)
 				errs = nil
 				switch pre {
